@@ -35,6 +35,8 @@ pub const ID_FEEPOOL: u32 = 4;
 pub const ID_FEED: u32 = 5;
 pub const ID_TOKEN: u32 = 6;
 pub const ID_VAMM0: u32 = 11;
+pub const ID_SUFFIX_ACCOUNT: u32 = 51;
+pub const ID_FORGED_VAMM: u32 = 91;
 pub const NATIVE_DENOM: &str = "uwasm";
 pub const ORACLE_KEY: &str = "ETH";
 
@@ -339,6 +341,10 @@ impl World {
             ID_FEED => self.feed.clone(),
             ID_TOKEN => self.token.clone().unwrap_or_else(|| eoa(id)),
             x if x >= ID_VAMM0 && ((x - ID_VAMM0) as usize) < self.vamms.len() => self.vamms[(x - ID_VAMM0) as usize].clone(),
+            // an account whose address is a proper suffix of account 21's ("acct0021"), and a forged vAMM
+            // string that is vAMM 11's address followed by the missing prefix: sha3(vamm || trader) collides
+            ID_SUFFIX_ACCOUNT => Addr::unchecked("0021"),
+            ID_FORGED_VAMM => Addr::unchecked(format!("{}acct", self.vamms[0])),
             _ => eoa(id),
         }
     }
@@ -350,6 +356,7 @@ impl World {
         if Some(a.clone()) == self.token { return ID_TOKEN; }
         for (i, v) in self.vamms.iter().enumerate() { if v == a { return ID_VAMM0 + i as u32; } }
         let s = a.as_str();
+        if s == "0021" { return ID_SUFFIX_ACCOUNT; }
         if s.starts_with("acct") { return s[4..].parse().unwrap_or(0); }
         0
     }
